@@ -220,6 +220,10 @@ pub struct RunArgs {
     pub tier: Tier,
     pub seed: u64,
     pub replay: Option<String>,
+    /// A saved input of the generic coverage-guided target (bytes that drive the strategy).
+    pub replay_case_bytes: Option<String>,
+    /// Write a starting corpus of this many recorded inputs into the directory and exit.
+    pub emit_corpus: Option<(String, usize)>,
     pub workers: usize,
     pub cases_override: Option<u32>,
 }
@@ -321,6 +325,19 @@ pub fn run_property<P: Property>(prop: P, args: RunArgs) -> i32 {
         .map(|(_, k, _)| k.clone())
         .collect();
     let root = verif_root();
+
+    if let Some((dir, n)) = &args.emit_corpus {
+        let _ = std::fs::create_dir_all(dir);
+        let corpus = recorded_corpus(&*prop, args.seed, *n);
+        for (k, c) in corpus.iter().enumerate() {
+            std::fs::write(std::path::Path::new(dir).join(format!("rec-{:04}", k)), c).unwrap();
+        }
+        say!("wrote {} recorded inputs to {}", corpus.len(), dir);
+        return 0;
+    }
+    if let Some(path) = &args.replay_case_bytes {
+        return replay_case_bytes(prop.clone(), known_keys.clone(), path, args.seed);
+    }
 
     // ---- replay mode -------------------------------------------------------------------------
     if let Some(path) = &args.replay {
@@ -683,4 +700,144 @@ pub fn run_property<P: Property>(prop: P, args: RunArgs) -> i32 {
         wall
     );
     0
+}
+
+// ---------------------------------------------------------------------------------------------
+// Coverage-guided mode for every property: the fuzzer's bytes are the random source of the
+// property's own strategy (proptest's PassThrough RNG), so every input decodes to a well-formed
+// case of the same domain the property-based tier draws from, and libFuzzer's coverage feedback
+// over the canister code steers which cases are kept and mutated.
+// ---------------------------------------------------------------------------------------------
+
+fn passthrough_runner(data: &[u8]) -> TestRunner {
+    let config = Config {
+        cases: 1,
+        failure_persistence: None,
+        max_global_rejects: 100_000,
+        ..Config::default()
+    };
+    TestRunner::new_with_rng(config, TestRng::from_seed(RngAlgorithm::PassThrough, data))
+}
+
+/// The case a byte string decodes to (None: the strategy rejected too often).
+pub fn case_from_bytes<C: std::fmt::Debug>(strat: &BoxedStrategy<C>, data: &[u8]) -> Option<C> {
+    use proptest::strategy::{Strategy, ValueTree};
+    let mut runner = passthrough_runner(data);
+    strat.new_tree(&mut runner).ok().map(|t| t.current())
+}
+
+/// `n` byte strings that decode to cases drawn like the property-based tier draws them
+/// (proptest's Recorder RNG): the starting corpus of a campaign.
+pub fn recorded_corpus<P: Property>(prop: &P, seed: u64, n: usize) -> Vec<Vec<u8>> {
+    use proptest::strategy::Strategy;
+    let strat = prop.strategy(Tier::Quick);
+    let mut out = vec![];
+    for k in 0..n {
+        let config = Config { cases: 1, failure_persistence: None, ..Config::default() };
+        let rng = TestRng::from_seed(RngAlgorithm::Recorder, &seed_bytes(seed, k as u64, prop.id()));
+        let mut runner = TestRunner::new_with_rng(config, rng);
+        if strat.new_tree(&mut runner).is_ok() {
+            out.push(runner.bytes_used());
+        }
+    }
+    out
+}
+
+pub struct FuzzCtx<P: Property> {
+    prop: P,
+    strat: BoxedStrategy<P::Case>,
+    keys: BTreeSet<String>,
+}
+
+impl<P: Property> FuzzCtx<P> {
+    pub fn new(prop: P) -> Self {
+        let kf = load_known_findings();
+        let keys = kf.known.iter().filter(|(p, _, _)| p == prop.id()).map(|(_, k, _)| k.clone()).collect();
+        let strat = prop.strategy(Tier::Quick);
+        FuzzCtx { prop, strat, keys }
+    }
+    /// Runs the case `data` decodes to. Some(message) iff it violates the property (beyond the
+    /// listed known findings).
+    pub fn one(&self, data: &[u8]) -> Option<String> {
+        let case = case_from_bytes(&self.strat, data)?;
+        judge(&self.prop, &self.keys, &case).1.err()
+    }
+}
+
+/// Replay of a saved input of the generic coverage-guided target: decode, shrink with the
+/// library's own value tree, write the JSON replay file, confirm outside the library.
+fn replay_case_bytes<P: Property>(prop: Arc<P>, known_keys: BTreeSet<String>, path: &str, seed: u64) -> i32 {
+    use proptest::strategy::{Strategy, ValueTree};
+    let id = prop.id();
+    let bytes = std::fs::read(path).expect("cannot read replay file");
+    let prop2 = prop.clone();
+    let keys = known_keys.clone();
+    let res: Option<(P::Case, String)> = spawn_big(move || {
+        crate::sut::install_panic_hook();
+        let strat = prop2.strategy(Tier::Quick);
+        let mut runner = passthrough_runner(&bytes);
+        let mut tree = strat.new_tree(&mut runner).ok()?;
+        let first = tree.current();
+        let mut best = match judge(&*prop2, &keys, &first).1 {
+            Ok(()) => return None,
+            Err(m) => (first, m),
+        };
+        let mut iters = 0u32;
+        if tree.simplify() {
+            loop {
+                iters += 1;
+                if iters > prop2.max_shrink_iters() {
+                    break;
+                }
+                let cur = tree.current();
+                match judge(&*prop2, &keys, &cur).1 {
+                    Err(m) => {
+                        best = (cur, m);
+                        if !tree.simplify() {
+                            break;
+                        }
+                    }
+                    Ok(()) => {
+                        if !tree.complicate() {
+                            break;
+                        }
+                    }
+                }
+            }
+        }
+        Some(best)
+    })
+    .join()
+    .unwrap();
+    match res {
+        None => {
+            say!("replay {}: property {} held", path, id);
+            0
+        }
+        Some((case, msg)) => {
+            let dir = verif_root().join("replays");
+            let _ = std::fs::create_dir_all(&dir);
+            let out = dir.join(format!("{}-fuzzcase-{:016x}.json", id, fnv(path.as_bytes())));
+            let rf = ReplayFile { property: id.to_string(), seed, note: msg.clone(), case: case.clone() };
+            std::fs::write(&out, serde_json::to_string_pretty(&rf).unwrap()).unwrap();
+            let keys = known_keys.clone();
+            let confirm = spawn_big(move || {
+                crate::sut::install_panic_hook();
+                judge(&*prop, &keys, &case).1
+            })
+            .join()
+            .unwrap();
+            match confirm {
+                Err(m2) => {
+                    say!("violation: {}", m2);
+                    say!("VIOLATION property={} replay={}", id, out.display());
+                    1
+                }
+                Ok(()) => {
+                    say!("ERROR: shrunk case did not reproduce outside the library (flaky harness?): {}", msg);
+                    2
+                }
+            }
+        }
+    }
 }
